@@ -36,7 +36,13 @@ RULE = (
     "(plus maybe a third) and keeps its workspaces, half of its stage/save operations re-use an earlier unchanged "
     "workspace in another store (warm cache, other algorithm, both orders). Histories also reopen a store directory "
     "under the other class (generic <-> local) and then re-add / re-stage / transfer ids that are already present. "
-    "Every fifth StateNoop history ends in one operation that breaks WfOp (malformed stream)."
+    "Every fifth StateNoop history ends in one operation that breaks WfOp (malformed stream). "
+    "Trees also contain a directory next to siblings whose names extend its name by a character sorting below '/' "
+    "(data/ next to data.csv, data-v2, 'data v'; img/ next to 'img 2.png'; a/ next to a.b, a-b, 'a b'), as files and "
+    "as directories, so that key-tuple order and relpath order differ. 30% of the transfers run with verify=True. "
+    "Rot stream (every third plain history): after the normal steps an object of a store is rewritten on disk (an "
+    "external event, same inode and mode), followed by 1-3 steps, mostly verifying transfers of the rotten id and of "
+    "directories listing it into same-algorithm partners: only objects on a rewritten inode may then be misnamed."
 )
 ASSUMPTIONS = [
     "WfOp: ids handed to odb.add by callers outside dvc-data are truthful; transfer is used between stores of one "
@@ -44,7 +50,7 @@ ASSUMPTIONS = [
     "index entries are used with md5 or md5-dos2unix stores only (sha256 directory staging goes through the legacy "
     "external-output path, DESIGN section 6 C01 'not covered')",
     "contents shorter than one hashing chunk (2^20 bytes): the dos2unix heuristic sees the first 512 bytes of the whole "
-    "content (chunking is C14); umask 022; no upload faults, no remote index, verify=False (C04/C11/C07)",
+    "content (chunking is C14); umask 022; no upload faults, no remote index (C04/C11); verify only as the transfer flag",
     "environment observed and handed to the model as explicit arguments: order of the workspace walk, order of the "
     "index iteration, order in which migrate.prepare returns the re-hashed objects, whether the file system hard-links",
     "the model is cache-free; in the shared-State histories the real State must make no observable difference (its "
